@@ -671,7 +671,7 @@ func (g *gen) extStmt(d int) (piece, bool) {
 	if g.noEmit > 0 {
 		return piece{}, false
 	}
-	switch g.r.Intn(10) {
+	switch g.r.Intn(13) {
 	case 0: // range over slice / array with key and value
 		g.feat["range-slice"]++
 		b := &brk{id: g.id(), isLoop: true}
@@ -900,6 +900,74 @@ func (g *gen) extStmt(d int) (piece, bool) {
 		gl = append(gl, indent(joinGo(ep))...)
 		gl = append(gl, "}")
 		return piece{gl, ""}, true
+	case 10: // range with '=' into variables of an outer scope (slice/array and string), values after the loop
+		if g.avoid.rangeAssign {
+			return piece{}, false
+		}
+		g.feat["range-assign-outer"]++
+		k := fmt.Sprintf("k%d", g.id())
+		x := fmt.Sprintf("x%d", g.id())
+		rn := fmt.Sprintf("r%d", g.id())
+		a := fmt.Sprintf("a%d", g.id())
+		sl := []string{"[]int{4, 5}", "[3]int{7, 0, 2}", "[]int{}", "[]int{6}"}[g.r.Intn(4)]
+		st := []string{`"aé"`, `"héllo"`, `""`, `"日本x"`}[g.r.Intn(4)]
+		gl := []string{fmt.Sprintf("%s, %s := 9, 9", k, x), fmt.Sprintf("var %s rune = 'q'", rn), fmt.Sprintf("var %s [2]int", a)}
+		loopS := []string{fmt.Sprintf("for %s, %s = range %s {", k, x, sl), fmt.Sprintf("\temit(%s*10 + %s)", k, x)}
+		if g.r.Bool() {
+			loopS = append(loopS, fmt.Sprintf("\t%s += 5", k)) // assigning the key does not affect the iteration
+		}
+		loopS = append(loopS, "}", fmt.Sprintf("emit(%s*10 + %s)", k, x))
+		loopR := []string{fmt.Sprintf("for %s, %s = range %s {", k, rn, st), fmt.Sprintf("\temit(%s*1000 + int(%s))", k, rn), "}",
+			fmt.Sprintf("emit(%s*1000 + int(%s))", k, rn)}
+		loopA := []string{fmt.Sprintf("for %s[1], %s = range %s {", a, rn, st), "}", fmt.Sprintf("emit(%s[1]*1000 + int(%s))", a, rn)}
+		if g.r.Bool() {
+			// the loops run inside a closure: the variables are reached through an outer frame
+			inner := append(append(append([]string{}, loopS...), loopR...), loopA...)
+			gl = append(gl, "func() {")
+			gl = append(gl, indent(inner)...)
+			gl = append(gl, "}()")
+		} else {
+			gl = append(append(append(gl, loopS...), loopR...), loopA...)
+		}
+		return piece{wrapBlock(gl), ""}, true
+	case 11: // select receiving (value, ok) from a closed channel
+		if g.avoid.selectOk {
+			return piece{}, false
+		}
+		g.feat["select-recv-ok"]++
+		ch := fmt.Sprintf("ch%d", g.id())
+		x := fmt.Sprintf("x%d", g.id())
+		ok := fmt.Sprintf("ok%d", g.id())
+		gl := []string{fmt.Sprintf("%s := make(chan int, 2)", ch)}
+		for i, n := 0, g.r.Intn(3); i < n; i++ {
+			gl = append(gl, fmt.Sprintf("%s <- %d", ch, 7+i))
+		}
+		gl = append(gl, fmt.Sprintf("close(%s)", ch), fmt.Sprintf("var %s int", x), fmt.Sprintf("var %s bool", ok), fmt.Sprintf("_, _ = %s, %s", x, ok))
+		for i := 0; i < 3; i++ {
+			if g.r.Bool() {
+				y, ok2 := fmt.Sprintf("y%d", g.id()), fmt.Sprintf("ok%d", g.id())
+				gl = append(gl, "select {", fmt.Sprintf("case %s, %s := <-%s:", y, ok2, ch), fmt.Sprintf("\temit(900 + %s)", y),
+					fmt.Sprintf("\tif %s {", ok2), "\t\temit(1)", "\t} else {", "\t\temit(0)", "\t}", "}")
+			} else {
+				gl = append(gl, "select {", fmt.Sprintf("case %s, %s = <-%s:", x, ok, ch), fmt.Sprintf("\temit(900 + %s)", x),
+					fmt.Sprintf("\tif %s {", ok), "\t\temit(1)", "\t} else {", "\t\temit(0)", "\t}", "}")
+			}
+		}
+		return piece{wrapBlock(gl), ""}, true
+	case 12: // go statement: arguments (array, struct) are evaluated and copied by the go statement
+		if g.avoid.goArgs {
+			return piece{}, false
+		}
+		g.feat["go-args"]++
+		done := fmt.Sprintf("done%d", g.id())
+		gate := fmt.Sprintf("gate%d", g.id())
+		a := fmt.Sprintf("a%d", g.id())
+		s := fmt.Sprintf("s%d", g.id())
+		gl := []string{fmt.Sprintf("%s, %s := make(chan int), make(chan int)", done, gate),
+			fmt.Sprintf("%s := [2]int{1, 2}", a), fmt.Sprintf("%s := struct{ X, Y int }{3, 4}", s),
+			fmt.Sprintf("go func(t [2]int, u struct{ X, Y int }, w int) { <-%s; %s <- t[0]*100 + u.Y*10 + w }(%s, %s, %s[1])", gate, done, a, s, a),
+			fmt.Sprintf("%s[0], %s[1], %s.Y = 9, 9, 9", a, a, s), fmt.Sprintf("%s <- 0", gate), fmt.Sprintf("emit(<-%s)", done)}
+		return piece{wrapBlock(gl), ""}, true
 	default: // switch with init declaration
 		g.feat["switch-init"]++
 		b := &brk{id: g.id(), isLoop: false}
@@ -938,7 +1006,7 @@ type program struct {
 const nres = 4
 
 // avoidSet: input classes of open findings (true = defect present, avoid the class)
-type avoidSet struct{ topGoto, rangeKey, selectConst bool }
+type avoidSet struct{ topGoto, rangeKey, selectConst, rangeAssign, selectOk, goArgs bool }
 
 func genProgram(r *vh.Rng, maxDepth int, ext bool, avoid avoidSet) *program {
 	topGoto := !avoid.topGoto
